@@ -184,7 +184,14 @@ class ExprAttribute(Expr):
     """The different parts of the dotted chain."""
 
     def iterate(self, *, flat: bool = True) -> Iterator[str | Expr]:
-        yield from _join(self.values, ".", flat=flat)
+        first = self.values[0]
+        if isinstance(first, str) and first.isdigit():
+            # Integer literals need parentheses: `1.real` is a syntax error.
+            yield f"({first})"
+            yield "."
+            yield from _join(self.values[1:], ".", flat=flat)
+        else:
+            yield from _join(self.values, ".", flat=flat)
 
     def append(self, value: ExprName) -> None:
         """Append a name to this attribute.
